@@ -18,6 +18,42 @@ use std::pin::Pin;
 use std::sync::{Arc, Mutex};
 use std::task::{Context, Poll, Waker};
 
+/// Response body whose data frames are *segmented* buffers (`Chain<Bytes, Bytes>`): a `Buf` is
+/// not necessarily one contiguous slice.
+pub struct SegBody {
+    inner: SimBody,
+    sim: Sim,
+}
+
+impl Body for SegBody {
+    type Data = bytes::buf::Chain<Bytes, Bytes>;
+    type Error = crate::seams::BoxError;
+    fn poll_frame(mut self: Pin<&mut Self>, cx: &mut Context<'_>) -> Poll<Option<Result<http_body::Frame<Self::Data>, Self::Error>>> {
+        use bytes::Buf;
+        let this = &mut *self;
+        match Pin::new(&mut this.inner).poll_frame(cx) {
+            Poll::Pending => Poll::Pending,
+            Poll::Ready(None) => Poll::Ready(None),
+            Poll::Ready(Some(Err(e))) => Poll::Ready(Some(Err(e))),
+            Poll::Ready(Some(Ok(f))) => {
+                let sim = this.sim.clone();
+                Poll::Ready(Some(Ok(f.map_data(|mut d: Bytes| {
+                    let at = match sim.weighted(&[3, 2, 1]) {
+                        0 => d.len(),
+                        1 => sim.range(0, d.len() as u64) as usize,
+                        _ => 0,
+                    };
+                    if at > 0 && at < d.len() {
+                        sim.probe("segmented-data-buffer");
+                    }
+                    let a = d.split_to(at);
+                    a.chain(d)
+                }))))
+            }
+        }
+    }
+}
+
 #[derive(Clone, Default, Debug)]
 pub struct WebSeen {
     pub version: Option<Version>,
@@ -38,7 +74,7 @@ where
     B: Body<Data = Bytes> + Send + 'static,
     B::Error: std::fmt::Display,
 {
-    type Response = http::Response<SimBody>;
+    type Response = http::Response<SegBody>;
     type Error = std::convert::Infallible;
     type Future = Pin<Box<dyn Future<Output = Result<Self::Response, Self::Error>> + Send>>;
     fn poll_ready(&mut self, _cx: &mut Context<'_>) -> Poll<Result<(), Self::Error>> {
@@ -63,7 +99,7 @@ where
                     break;
                 }
             }
-            let mut resp = http::Response::new(SimBody::new(&this.sim, "web-resp", this.body.clone(), this.pending, false));
+            let mut resp = http::Response::new(SegBody { inner: SimBody::new(&this.sim, "web-resp", this.body.clone(), this.pending, false), sim: this.sim.clone() });
             resp.headers_mut().insert("content-type", "application/grpc-web+proto".parse().unwrap());
             Ok(resp)
         })
